@@ -53,7 +53,8 @@ ASSUMPTIONS = [
 
 CLASSES = ["h1", "h1", "h1", "h2", "h2", "h3", "polar", "radial", "azimuthal", "spherical", "spherical_surface",
            "cylindrical", "cylindrical_surface", "collection"]
-PATHS = ["a.json", "b.json"]
+# paths inside the simulated file system only: code that by-passes the seam (os.open, pathlib) cannot create them
+PATHS = ["/histsim-simfs/a.json", "/histsim-simfs/b.json"]
 META = [{}, {"run": 7}, {"tag": "x", "params": [1, 2.5, "a"]}, {"nested": {"a": 1, "b": [True, None]}},
         {"unit": "GeV", "scale": 0.25}, {"label": "p\u2090 [\u00b5m] \u2013 \u00dcn\u00efc\u00f6de", "quote": "a \"b\" \\ c"}]
 
@@ -86,7 +87,7 @@ def generate(rng, seed, part):
                     "axis_names": rng.choice([None, None, ["x", "y", "z"][:ndim]])})
         if adaptive:
             cfg["dtype"] = rng.choice([None, "float64", "int64"]) if wkind in ("none", "int") else None
-        elif klass == "h1" and rng.random() < 0.04:
+        elif rng.random() < 0.06:
             cfg["dtype"] = "float128"
         pools = [build.axis_pool(build.spec_bins(a)) for a in axes]
         entries = []
